@@ -252,6 +252,20 @@ def wrap_tree(C, t, how, n=2):
     raise ValueError(how)
 
 
+def _mark_wpa(t, rng):
+    """build the AtomicMultiChannelPTs of the tree through .with_parallel_atomic()"""
+    if t['k'] == 'multi' and len(t['subs']) >= 2:
+        t['via'] = 'wpa'
+        if rng.random() < 0.5:
+            t['wrap1'] = True
+    for key in ('subs',):
+        for c in t.get(key, []):
+            _mark_wpa(c, rng)
+    for key in ('body', 'l', 'r'):
+        if key in t:
+            _mark_wpa(t[key], rng)
+
+
 def _unit_env(C):
     return {p: '1' for p in C.PARAMS}
 
@@ -268,6 +282,8 @@ def gen_coincide(rng, g, C, gc, k=None):
             t = wrap_tree(C, t, rng.choice(WRAPS), rng.choice([2, 3]))
         env = _unit_env(C)
         mm = None if rng.random() < 0.5 else {n: rng.choice([n, 'm0']) for n in sorted(x for x in C.meas_names(t) if x is not None)}
+        if rng.random() < 0.4:
+            _mark_wpa(t, rng)
         return {'kind': 'prog', 'pt': t, 'env': env, 'mm': mm, 'family': 'coincide:' + shape,
                 'share': rng.random() < 0.3, 'twice': rng.random() < 0.15}
     chs = ['A', 'B'] if rng.random() < 0.5 else ['A']
@@ -303,6 +319,48 @@ def enum_loop_coincide():
         else:
             ch = [{'rep': crep, 'wf': None, 'ms': cown, 'ch': [{'rep': 1, 'wf': '1', 'ms': [W, W2], 'ch': []}]}]
         out.append({'kind': 'loop', 'loop': {'rep': prep, 'wf': None, 'ms': own, 'ch': ch}})
+    return out
+
+
+def _at(j, path):
+    for i in path:
+        j = j['ch'][i]
+    return j
+
+
+def _inner_paths(j, path=()):
+    out = [list(path)] if j['ch'] else []
+    for i, c in enumerate(j['ch']):
+        out.extend(_inner_paths(c, path + (i,)))
+    return out
+
+
+def gen_loop_edit(rng, g):
+    """a hand-built loop that is queried and then extended by append_child at inner nodes (cached durations of the parent
+    chain have to follow: the windows of later siblings / repetitions move)"""
+    base = g.loop(rng.choice([2, 2, 3]), False)
+    if not base['ch']:
+        base = {'rep': rng.choice([1, 2]), 'wf': None, 'ms': base['ms'], 'ch': [base, g.loop(1, False)]}
+    cur = copy.deepcopy(base)
+    edits = []
+    for _ in range(rng.choice([1, 1, 2, 3])):
+        path = rng.choice(_inner_paths(cur))
+        child = g.loop(rng.choice([0, 0, 1]), False)
+        _at(cur, path)['ch'].append(copy.deepcopy(child))
+        edits.append([path, child])
+    return {'kind': 'loop', 'loop': cur, 'base': base, 'edits': edits}
+
+
+def enum_loop_empty():
+    """inner nodes that carry windows but (after cleanup) nothing to play: their windows are dropped with a warning"""
+    W = [['m0', '0', '1']]
+    E = lambda ms: {'rep': 1, 'wf': None, 'ms': ms, 'ch': []}
+    L = {'rep': 2, 'wf': '1', 'ms': W, 'ch': []}
+    out = []
+    for ims, ems, irep, tail in itertools.product([[], W], [[], W], [1, 2], [0, 1]):
+        inner = {'rep': irep, 'wf': None, 'ms': ims, 'ch': [E(ems)] + ([E([])] if tail else [])}
+        out.append({'kind': 'loop', 'loop': {'rep': 1, 'wf': None, 'ms': W, 'ch': [inner, L]}})
+        out.append({'kind': 'loop', 'loop': {'rep': 2, 'wf': None, 'ms': [], 'ch': [L, {'rep': 1, 'wf': None, 'ms': W, 'ch': [inner]}]}})
     return out
 
 
